@@ -1,6 +1,7 @@
 package props
 
 import (
+	"encoding/hex"
 	"fmt"
 	"net/http"
 	"net/url"
@@ -26,9 +27,18 @@ type c06Case struct {
 	FE    string      `json:"fe"`              // direct | json | http-json | form | query | env
 	Input model.Val   `json:"input,omitempty"` // direct: the Go value (may contain wild leaves)
 	Text  string      `json:"text,omitempty"`  // textual front ends: document / encoded pairs; env: "K=V\x1eK=V"
+	// TextHex: the text as hex (bodies that are not valid UTF-8 survive the replay file this way)
+	TextHex string `json:"textHex,omitempty"`
 }
 
 func propC06(c c06Case) hh.Verdict {
+	if c.TextHex != "" {
+		raw, err := hex.DecodeString(c.TextHex)
+		if err != nil {
+			return hh.Verdict{Skip: "bad-hex"}
+		}
+		c.Text = string(raw)
+	}
 	c.Root.Number()
 	env := &model.Env{}
 	schema, typ := model.Build(c.Root, env)
@@ -205,6 +215,13 @@ func genC06(rt *rapid.T, cfg model.GenCfg) c06Case {
 		switch rapid.IntRange(0, 9).Draw(rt, "jshape") {
 		case 0:
 			doc = rapid.SampledFrom([]string{`{}`, `null`, `[]`, `1`, `"s"`, `true`, ``, ` `, `{`, `}`, `{"a"`, `{"a":}`, `[{}]`, `{"":1}`, `{"a":1,"a":2}`, `1e999`, `{"name":1e999}`, `{"name":123456789012345678901234567890}`, `{"name":-0}`, "{\"name\":\"\xff\"}", `{"name":"\ud800"}`}).Draw(rt, "jfixed")
+		case 5:
+			// byte-level prefixes a body may start with: byte order marks (whole and cut short), every short byte string
+			if rapid.Bool().Draw(rt, "bom") {
+				doc = rapid.SampledFrom([]string{"\xef", "\xef\xbb", "\xef\xbb\xbf", "\xfe\xff", "\xff\xfe", "\xff", "\x00", "\xef\xbb\xbf "}).Draw(rt, "bomv") + rapid.SampledFrom([]string{"", "", doc, "{}"}).Draw(rt, "bomrest")
+			} else {
+				doc = string(rapid.SliceOfN(rapid.Byte(), 1, 3).Draw(rt, "rawbytes"))
+			}
 		case 1:
 			if len(doc) > 0 {
 				doc = doc[:rapid.IntRange(0, len(doc)).Draw(rt, "cut")] // truncated
@@ -366,6 +383,24 @@ func TestC06(t *testing.T) {
 				// and nested one level down
 				yield(c06Case{Root: &n, FE: "direct", Input: model.Map(model.KV{K: "name", V: model.Val{T: "wild", S: w}}, model.KV{K: "addr", V: model.Val{T: "wild", S: w}}, model.KV{K: "tags", V: model.Val{T: "wild", S: w}})})
 				yield(c06Case{Root: &n, FE: "direct", Input: model.List(model.Val{T: "wild", S: w}, model.Nil())})
+			}
+		}
+	}, propC06)
+	// every body of one byte, and every body of two bytes drawn from the bytes that start or continue something (JSON
+	// punctuation, digits, quotes, white space, UTF-8 lead and continuation bytes, byte order marks), through both JSON front ends
+	hh.Enumerate(h, "short-bodies", func(yield func(c06Case)) {
+		root := model.Node{Kind: model.KStruct, Fields: []model.Field{{Key: "name", Node: &model.Node{Kind: model.KString, Req: true}}, {Key: "age", Node: &model.Node{Kind: model.KInt}}}}
+		special := []byte("{}[]\",:0-1.eEtfn \t\n\r\\/u\x00\x7f\x80\xbb\xbf\xc0\xc2\xe0\xef\xf0\xf4\xf8\xfe\xff")
+		for _, fe := range []string{"json", "http-json"} {
+			for b := 0; b < 256; b++ {
+				n := model.RoundTrip(root)
+				yield(c06Case{Root: &n, FE: fe, TextHex: hex.EncodeToString([]byte{byte(b)})})
+			}
+			for _, a := range special {
+				for _, b := range special {
+					n := model.RoundTrip(root)
+					yield(c06Case{Root: &n, FE: fe, TextHex: hex.EncodeToString([]byte{a, b})})
+				}
 			}
 		}
 	}, propC06)
